@@ -6,6 +6,12 @@ HOOK_COMMITS = ["5b0156d"]
 
 # id -> (level text, level note, technique, design_ref)
 CLAIMED = {
+    "C01": (
+        "Model-based stateful property testing: generated configurations (asset kinds, decimals, fee triples) and operation histories by four users are executed against the real pair created through the real factory under cw-multi-test; after every step an exact (1024-bit) invariant check runs: Pool query succeeds, balance >= reserve + owed fees, geometric mean per LP share not lower, withdrawals <= pro-rata, deposit-then-withdraw <= deposited (pools with LPs), minimum-liquidity stake locked, rejected steps leave the whole world snapshot unchanged. Exploration: tens of thousands of histories per quick run, shrunk to minimal operation sequences on failure.",
+        "Trusts cw-multi-test 0.16.5 (bank, wasm keeper, atomic revert) as the chain and the repository's cw20. Token-factory LP builds are not exercised. A contract panic counts as a rejected transaction.",
+        "stateful / model-based property testing (proptest histories + per-step invariant oracle)",
+        "DESIGN.md §4 C01",
+    ),
     "C02": (
         "Generated-input search (proptest, 16 deterministic shards) over the whole documented domain [1,2^128)^3 x valid fee triples x decimals, judged against an independent exact 1024-bit reference: gross floor, fee floors, strict bound, totality inside the 128-bit domain, there-and-back with the case's fees and with zero fees, gross monotone in the offer. Exploration, not proof: millions of cases per quick run, hundreds of millions thorough, with boundary constants and extreme-ratio shapes weighted in.",
         "Trusts refmath.rs (bnum integers, self-tested at start-up) and that commands::swap / queries::query_simulation call the hooked compute_swap (cross-checked by C14). A panic is an abort.",
